@@ -1182,7 +1182,7 @@ fn gen_cff(rng: &mut Rng) -> String {
     format!("s|{}|{}|{}|{}|{}|{}|{}", ng, nl, sh(&glyphs), sh(&gs), sh(&ls), join(&ids), rng.below(2))
 }
 
-fn run(input: &str) -> String {
+pub fn run(input: &str) -> String {
     let parts: Vec<&str> = input.split('|').collect();
     if std::env::var("C07_DEBUG").is_ok() {
         std::panic::set_hook(Box::new(|info| eprintln!("{}", info)));
@@ -1305,7 +1305,7 @@ fn show_hm(hm: &[(u16, i16)]) -> String {
     }
 }
 
-fn gen(rng: &mut Rng) -> String {
+pub fn gen(rng: &mut Rng) -> String {
     match rng.below(100) {
         0..=44 => {
             let mode = if rng.chance(1, 2) { "P" } else { "B" };
